@@ -14,7 +14,7 @@ def run(ctx):
     thorough = ctx.tier == "thorough"
     shapes = ["inc", "dec", "single", "irregular"]
     optsets = ["default", "v12", "wrap"] if not thorough else ["default", "v12", "wrap", "fmt2"]
-    hists, nedges = writefx.histories_from_tlc(ctx, shapes, optsets, 5 if not thorough else 5)
+    hists, nedges = writefx.histories_from_tlc(ctx, shapes, optsets, 5 if not thorough else 6)
     ctx.extra["model_histories"] = len(hists)
     # only maximal histories are run (their prefixes are exercised on the way); writes get varied option sets
     maximal = [h for h in hists if len(h) >= 2]
